@@ -81,7 +81,7 @@ def acc_of(c, value):
     return None
 
 
-def check_fanin(rep, rule, c, what, target, term_text, env, L, bus_cond=None, term_cond=None):
+def check_fanin(rep, rule, c, what, target, term_text, env, L, bus_cond=None, term_cond=None, outer=()):
     """target == OR over all iterations of loop L of <term> (term only present under term_cond), driven comb
     under bus_cond only."""
     site = c.fi.site
@@ -95,7 +95,7 @@ def check_fanin(rep, rule, c, what, target, term_text, env, L, bus_cond=None, te
         return False
     d = ds[0]
     gen = [fr for fr in d.gen]
-    want_gen = [] if bus_cond is None else [('pyif', c.parse(bus_cond, env), True)]
+    want_gen = [('for', o) for o in outer] + ([] if bus_cond is None else [('pyif', c.parse(bus_cond, env), True)])
     got_gen = [(fr[0], c.norm(fr[1]), fr[2]) if fr[0] == 'pyif' else fr for fr in gen]
     if got_gen != want_gen:
         rep.bad(rule, site, what, f"driver exists under generation condition(s) {[ir.show(g[1]) if g[0]=='pyif' else g for g in got_gen]}; "
@@ -118,7 +118,7 @@ def check_fanin(rep, rule, c, what, target, term_text, env, L, bus_cond=None, te
         rep.bad(rule, site, what, f"term is {c.show(term)}; expected {ir.show(want_term)}", line=ln)
         return False
     tg = [(fr[0], c.norm(fr[1]), fr[2]) if fr[0] == 'pyif' else fr for fr in tgen]
-    want_tg = [('for', L.id)] + ([] if term_cond is None else [('pyif', c.parse(term_cond, env), True)])
+    want_tg = [('for', o) for o in outer] + [('for', L.id)] + ([] if term_cond is None else [('pyif', c.parse(term_cond, env), True)])
     if tg != want_tg:
         rep.bad(rule, site, what, "the term is not added for every subordinate (that has the signal): "
                 f"found context {[ir.show(g[1]) if g[0]=='pyif' else g for g in tg]}", line=ln)
